@@ -92,9 +92,9 @@ PROPS['C18'] = dict(
 PROPS['C19'] = dict(
     category='other',
     technique='Kani contracts on the real accessor functions: loop-free full-domain harness for the progress clamp, bounded harnesses (curve size) for index search and interpolation',
-    level_text='progress_to_dist proved (Kani, every f64 progress and distance: <= 0 gives 0 x dist, >= 1 gives dist, clamp before product); interpolate_vertices / idx_of_dist / position_at(progress <= 0) bounded stand-ins on curves of <= 3-4 vertices over every f64 value and every usize index',
+    level_text='interpolate_vertices proved (Verus, paths and length lists of EVERY length, every index and distance: no out-of-bounds access under path.len() <= lengths.len(); index 0 -> first vertex, past the end -> last vertex, near-equal neighbouring lengths -> earlier vertex, empty path -> origin). progress_to_dist proved (Kani, every f64 progress and distance: <= 0 gives 0 x dist, >= 1 gives dist, clamp before product); interpolate_vertices / idx_of_dist / position_at(progress <= 0) bounded stand-ins on curves of <= 3-4 vertices over every f64 value and every usize index',
     level_note='not decided (and deliberately not asserted): the 1-Lipschitz claim, position at progress 1 is the last point, and position at a vertex length is that vertex hold only up to f32 rounding of p0 + (p1 - p0) * w',
-    verus=[], kani=['curve.kc'],
+    verus=[dict(unit='c19', tier='quick')], kani=['curve.kc'],
     only_prefix=['c19_'],
     kani_functions=['src/section/hit_objects/slider/curve.rs :: fn progress_to_dist', 'src/section/hit_objects/slider/curve.rs :: fn dist',
                     'src/section/hit_objects/slider/curve.rs :: fn idx_of_dist', 'src/section/hit_objects/slider/curve.rs :: fn interpolate_vertices',
@@ -164,10 +164,10 @@ PROPS['C11'] = dict(
 
 PROPS['C20'] = dict(
     category='other',
-    technique='Kani contracts on the real iterator: loop-free full-domain harness for the constructor and repeat points; bounded harnesses on listed parameter values for the closed forms and the zero-tick stream',
-    level_text='proved (Kani, every f64 parameter): SliderEventsIter::new empties the reusable buffer whatever it held, clamps the tick distance into [0, len], caps len at 100000; new_repeat_point closed form. Bounded stand-ins (listed parameter values): Head / LastTick / Tail closed forms incl. mirrored progress on even span counts, Done stays Done, zero tick distance yields every repeat and no tick for 1..4 spans with a stale buffer. Tick-bearing streams (order, mirroring, suppression near the end) are thorough-tier only: CBMC does not fold the float loop guards and needs long runs',
-    level_note='assumed: total distance >= 0 (f64::clamp(0, len) panics otherwise; callers pass Curve::dist()); termination of the tick loop for tiny positive tick distances is not decided; callers in encode.rs deriving the parameters are not covered',
-    verus=[], kani=['c20.kc'],
+    technique='Verus contracts on the extracted iterator (new / next / generate_ticks) for the stream STRUCTURE, unbounded in span and tick counts, floats uninterpreted; Kani contracts for the numeric closed forms (full domain where loop-free, listed values otherwise)',
+    level_text='proved (Verus, every span count >= 1, every tick count, every float parameter): new() leaves the reusable buffer empty whatever it held; generate_ticks pushes, for one span, ticks then exactly one Repeat iff the span is not the last, all tagged with that span, in the order next() pops them; next() steps Head -> ticks/repeats of spans in increasing order -> LastTick -> Tail -> Done(None forever), never a Repeat for the last span, generating a span only when the buffer is drained. proved (Kani, every f64 parameter): SliderEventsIter::new empties the reusable buffer whatever it held, clamps the tick distance into [0, len], caps len at 100000; new_repeat_point closed form. Bounded stand-ins (listed parameter values): Head / LastTick / Tail closed forms incl. mirrored progress on even span counts, Done stays Done, zero tick distance yields every repeat and no tick for 1..4 spans with a stale buffer. Tick TIMES and distances (chronological order within a span, mirroring, suppression near the end) are float facts: only the thorough-tier Kani streams address them',
+    level_note='Verus unit: float arithmetic abstracted (R6), termination of the tick loop and of next()\'s loop not proved (exec_allows_no_decreases_clause), new_repeat_point used through its Kani-proved contract. assumed: total distance >= 0 (f64::clamp(0, len) panics otherwise; callers pass Curve::dist()); termination of the tick loop for tiny positive tick distances is not decided; callers in encode.rs deriving the parameters are not covered',
+    verus=[dict(unit='c20', tier='quick')], kani=['c20.kc'],
     kani_functions=['src/section/hit_objects/slider/event.rs :: impl SliderEventsIter :: fn new', 'src/section/hit_objects/slider/event.rs :: impl Iterator for SliderEventsIter :: fn next',
                     'src/section/hit_objects/slider/event.rs :: fn generate_ticks', 'src/section/hit_objects/slider/event.rs :: fn new_repeat_point'],
     explanation='see level_text; per-obligation statements in coverage.samples[].states',
@@ -247,9 +247,9 @@ PROPS['C05'] = dict(
 PROPS['C01'] = dict(
     category='other',
     technique='panic-freedom / unsafe-guard contracts on the mechanisms the property names: Kani loop-free full-domain harnesses where the function is loop-free, bounded harnesses otherwise',
-    level_text='proved (Kani, full domain): numeric limits (parse_with_limits for f64 / f32 / i32: accepted values lie within +-limit and are never NaN, no overflow panic), BOM table, code-unit pairing, the two unsafe NonZeroU32::new_unchecked guards (HitSampleInfo::new, SamplePoint::apply), SliderEventsIter::new. Bounded stand-ins: path-string conversion incl. the raw-pointer split buffer being empty on every exit, index safety of interpolate_vertices / idx_of_dist / calculate_length (path.len() <= lengths.len() invariant), line parsers on templates never panic for any numeric value',
+    level_text='proved (Verus, every length): interpolate_vertices and bezier_subdivide never index outside their slices (given path.len() <= lengths.len(), resp. scratch buffers at least as long as the control-point list). proved (Kani, full domain): numeric limits (parse_with_limits for f64 / f32 / i32: accepted values lie within +-limit and are never NaN, no overflow panic), BOM table, code-unit pairing, the two unsafe NonZeroU32::new_unchecked guards (HitSampleInfo::new, SamplePoint::apply), SliderEventsIter::new. Bounded stand-ins: path-string conversion incl. the raw-pointer split buffer being empty on every exit, index safety of interpolate_vertices / idx_of_dist / calculate_length (path.len() <= lengths.len() invariant), line parsers on templates never panic for any numeric value',
     level_note='the universally quantified claim over byte strings is whole-program totality and is NOT decided; nor are termination of the adaptive Bezier subdivision and of the tick loop, the 1000-point arc cap, the lossy UTF-8 loop (thorough tier only), re-encoding, the tracing feature set',
-    verus=[], kani=['support.kc', 'parse_number.kc', 'encoding.kc', 'u16_iter.kc', 'hit_samples.kc', 'c15_sample.kc', 'curve.kc', 'c20.kc', 'ho_lines.kc', 'c11_sections.kc'],
+    verus=[dict(unit='c19', tier='quick')], kani=['support.kc', 'parse_number.kc', 'encoding.kc', 'u16_iter.kc', 'hit_samples.kc', 'c15_sample.kc', 'curve.kc', 'c20.kc', 'ho_lines.kc', 'c11_sections.kc'],
     only_prefix=['pn_', 'enc_from_bom', 'enc_decode', 'u16_', 'hs_hit_sample_info_new', 'c15_sample_point_apply', 'c16_calculate_length_2', 'c19_interpolate', 'c19_idx', 'c20_new_clears', 'ho_path_one', 'ho_line_5', 'c11_event_video_non_ascii', 'c11_difficulty_slider_multiplier', 'c11_color_five'],
     kani_functions=['src/util/parse_number.rs :: impl ParseNumber for f64 / f32 / i32', 'src/reader/encoding.rs :: Encoding::from_bom', 'src/reader/u16_iter.rs :: iterators',
                     'src/section/hit_objects/hit_samples.rs :: HitSampleInfo::new (unsafe)', 'src/section/timing_points/control_points/sample.rs :: SamplePoint::apply (unsafe)',
